@@ -103,6 +103,26 @@ class Analysis:
                         out.extend(self.nodes(h, depth + 1, _seen))
         return out
 
+    def nodes_with_sites(self, func: FuncInfo, depth=0, _seen=None, _sites=()):
+        """[(ast node, owning FuncInfo, call sites)] like nodes(); `call sites` are the call nodes (outermost first)
+        through which the owning helper was reached from func - its lexical context continues there."""
+        if _seen is None:
+            _seen = set()
+        if func.qualname in _seen or depth > 3:
+            return []
+        _seen.add(func.qualname)
+        out = [(n, func, _sites) for n in self.typer.own_nodes(func)]
+        for n in list(self.typer.own_nodes(func)):
+            if isinstance(n, (ast.Expr, ast.Assign, ast.Return, ast.AugAssign, ast.AnnAssign)):
+                v = getattr(n, 'value', None)
+                if isinstance(v, ast.Await):
+                    v = v.value
+                if isinstance(v, ast.Call):
+                    h = self._helper_target(v, func.node)
+                    if h is not None:
+                        out.extend(self.nodes_with_sites(h, depth + 1, _seen, _sites + (v,)))
+        return out
+
     def units(self) -> dict:
         u = self.prog.stats()
         u['contexts'] = len(self.typer.contexts())
